@@ -160,6 +160,8 @@ def run_impl(case):
 
     sess, ann, wd, attrs = build(case)
     rec, msgs, exc = {}, [], None
+    full = bytes(attrs.pack_attribute(sess.neg, True))  # the requested attributes, defaults included
+    minb = bytes(attrs.pack_attribute(sess.neg, False))  # what a withdraw-only MP UPDATE may carry instead
     with observe_attr(rec):
         try:
             for m in UpdateCollection(ann, wd, attrs).messages(sess.neg):
@@ -167,7 +169,7 @@ def run_impl(case):
         except Exception as e:  # any exception out of messages() is an observation
             tb = traceback.extract_tb(e.__traceback__)
             exc = (type(e).__name__, str(e)[:120], tb[-1].name if tb else '')
-    return {'msgs': msgs, 'exc': exc, 'attr': rec.get('attr')}
+    return {'msgs': msgs, 'exc': exc, 'attr': rec.get('attr'), 'full': full, 'min': minb}
 
 
 # ------------------------------------------------------------------------------- abstraction (case -> model input)
@@ -254,9 +256,11 @@ def split_nlris(data, addpath):
     return sizes
 
 
-def read_wire(m, attr, addpath_of):
-    """-> structured message: wd sizes, unreach (tag, sizes), attr present, reach (tag, nh hex, sizes), ann sizes;
-    None when the bytes are not a well-formed UPDATE of the expected shape."""
+def read_wire(m, full, minb, addpath_of, strict=True):
+    """-> structured message: wd sizes, unreach (tag, sizes), attr (= the attributes other than MP_REACH/MP_UNREACH
+    are exactly the requested block `full`), rest (those bytes), reach (tag, nh hex, sizes), ann sizes;
+    None when the bytes are not a well-formed UPDATE of the expected shape (strict: also when the other
+    attributes are neither `full` nor `minb` nor absent)."""
     if len(m) < 23 or m[:16] != b'\xff' * 16 or m[18] != 2 or (m[16] << 8 | m[17]) != len(m):
         return None
     body = m[19:]
@@ -298,11 +302,9 @@ def read_wire(m, attr, addpath_of):
         else:
             rest += attrs[off : off + hl + ln]
         off += hl + ln
-    if rest == b'':
-        out['attr'] = False
-    elif attr is not None and rest == attr:
-        out['attr'] = True
-    else:
+    out['rest'] = rest
+    out['attr'] = bool(full) and rest == full
+    if strict and rest not in (b'', full, minb):
         return None
     if out['wd'] is None or out['ann'] is None:
         return None
@@ -330,12 +332,17 @@ def oracle(case, res):
         ty, text, where = res['exc']
         fails.append((f'raise:{ty}:{where}', f'messages() raised {ty}({text!r}) in {where}'))
     got_ann, got_wd = collections.Counter(), collections.Counter()
-    attr = res['attr'] or b''
+    full = res['full']
     for i, m in enumerate(res['msgs']):
+        s = read_wire(m, full, res['min'], lambda f: neg.addpath.send(AFI(f[0]), SAFI(f[1])), strict=False)
         if len(m) > M:
-            s = read_wire(m, res['attr'], lambda f: neg.addpath.send(AFI(f[0]), SAFI(f[1])))
             path = 'mp-reach' if s and s['reach'] else 'mp-unreach' if s and s['unreach'] else 'v4'
             fails.append((f'oversize:{path}', f'message {i} is {len(m)} bytes, negotiated maximum {M}'))
+        if s is not None and (s['ann'] or s['reach'] is not None) and s['rest'] != full:
+            path = 'v4' if s['ann'] else 'mp-reach'
+            fails.append((f'attributes-differ:{path}', f'message {i} announces routes ({path}) with {len(s["rest"])} bytes of '
+                          f'path attributes instead of the {len(full)} bytes requested (ORIGIN, AS_PATH, NEXT_HOP, LOCAL_PREF, '
+                          f'generic ...): {s["rest"][:24].hex()} vs {full[:24].hex()}'))
         try:
             upd = Message.unpack(Message.CODE.UPDATE, m[19:], neg_in)
             data = upd.data
@@ -345,11 +352,17 @@ def oracle(case, res):
             continue
         for r in anns:
             fam = r.nlri.family().afi_safi()
-            got_ann[(fam_tag(fam), bytes(r.nlri.pack_nlri(neg)).hex(), bytes(r.nexthop.pack_ip()).hex())] += 1
+            try:
+                nhx = bytes(r.nexthop.pack_ip()).hex()
+            except Exception:
+                nhx = 'no-next-hop'
+            got_ann[(fam_tag(fam), bytes(r.nlri.pack_nlri(neg)).hex(), nhx)] += 1
         for n in wds:
             got_wd[(fam_tag(n.family().afi_safi()), bytes(n.pack_nlri(neg)).hex())] += 1
-        if anns and attr and attr not in m:
-            fails.append(('attributes-missing', f'message {i} announces routes without the requested attributes'))
+    negotiated_announce = any(r.nlri.family().afi_safi() in neg.families for r in ann)
+    # what the attributes leave: the requested block whenever something is announced; for a request made of
+    # withdraws only either block is legitimate, the one the implementation packed is taken
+    attr = full if negotiated_announce else (res['attr'] if res['attr'] is not None else full)
     room = M - 23 - len(attr)
     want_ann, want_wd, fit_a, fit_w = set(), set(), {}, {}
     for r in ann:
@@ -413,7 +426,8 @@ Import ListNotations. Open Scope Z_scope.
 Definition NHt := (Z * Z)%type.
 Definition nheq (a b : NHt) := (fst a =? fst b) && (snd a =? snd b).
 Definition M_ := msg Z NHt Z.
-Definition run (fx : bool) := @messages Z NHt Z (fun x => x) snd nheq fx.
+Definition simple (t : Z) : bool := let s := t mod 256 in (s =? 1) || (s =? 2).
+Definition run (fx : bool) := @messages_top Z NHt Z (fun x => x) snd nheq fx simple.
 Fixpoint zl_eqb (a b : list Z) : bool :=
   match a, b with [], [] => true | x :: a', y :: b' => (x =? y) && zl_eqb a' b' | _, _ => false end.
 Definition ou_eqb (a b : option (Z * list Z)) : bool :=
@@ -421,22 +435,25 @@ Definition ou_eqb (a b : option (Z * list Z)) : bool :=
 Definition or_eqb (a b : option (Z * NHt * list Z)) : bool :=
   match a, b with None, None => true
   | Some (f, n, l), Some (g, m, k) => (f =? g) && nheq n m && zl_eqb l k | _, _ => false end.
-Definition m_eqb (alen : Z) (a b : M_) : bool :=
+(* incl = the block the model packed is the requested one; the flag of the implementation side says
+   "the attributes other than MP_(UN)REACH are exactly the requested block" *)
+Definition m_eqb (incl : bool) (a b : M_) : bool :=
   zl_eqb (m_wd a) (m_wd b) && ou_eqb (m_unreach a) (m_unreach b)
-  && ((alen =? 0) || eqb (m_attr a) (m_attr b))
+  && eqb (m_attr a && incl) (m_attr b)
   && or_eqb (m_reach a) (m_reach b) && zl_eqb (m_ann a) (m_ann b).
-Fixpoint ms_eqb (alen : Z) (a b : list M_) : bool :=
-  match a, b with [], [] => true | x :: a', y :: b' => m_eqb alen x y && ms_eqb alen a' b' | _, _ => false end.
+Fixpoint ms_eqb (incl : bool) (a b : list M_) : bool :=
+  match a, b with [], [] => true | x :: a', y :: b' => m_eqb incl x y && ms_eqb incl a' b' | _, _ => false end.
 Definition israised (o : outcome) := match o with Raised => true | _ => false end.
-Definition case_t := (Z * Z * list Z * list Z * list (Z * list (NHt * Z) * list Z) * list M_ * bool * list Z)%type.
+Definition case_t := (Z * Z * Z * list Z * list Z * list (Z * list (NHt * Z) * list Z) * list M_ * bool * list Z)%type.
 Definition okc (fx : bool) (c : case_t) : bool :=
-  match c with (M, alen, v4a, v4w, fams, expect, raised, lens) =>
-    let r := run fx M alen v4a v4w fams in
-    ms_eqb alen (fst r) expect && eqb raised (israised (snd r)) end.
-(* the Spec's wire length of what the implementation sent = the number of bytes it sent *)
+  match c with (M, afull, amin, v4a, v4w, fams, expect, raised, lens) =>
+    match run fx M afull amin v4a v4w fams with
+    | (r, incl) => ms_eqb incl (fst r) expect && eqb raised (israised (snd r)) end end.
+(* the Spec's wire length of what the implementation sent = the number of bytes it sent (bytes of
+   attributes other than the requested block, if any, are subtracted on the harness side) *)
 Definition oksize (c : case_t) : bool :=
-  match c with (M, alen, v4a, v4w, fams, expect, raised, lens) =>
-    zl_eqb (map (wire_size (fun x => x) snd alen) expect) lens end.
+  match c with (M, afull, amin, v4a, v4w, fams, expect, raised, lens) =>
+    zl_eqb (map (wire_size (fun x => x) snd afull) expect) lens end.
 Fixpoint bad (p : case_t -> bool) (l : list case_t) (i : nat) : list nat :=
   match l with [] => [] | c :: l' => if p c then bad p l' (S i) else i :: bad p l' (S i) end.
 """
@@ -482,10 +499,9 @@ def coq_case(case, ab, res, structs):
         else:
             re_ = 'None'
         ms.append(f'Msg {rle(s["wd"])} ({un}) {"true" if s["attr"] else "false"} ({re_}) {rle(s["ann"])}')
-    alen = len(res['attr'] or b'')
-    return (f'({case["M"]}, {alen}, {rle(ab["v4a"])}, {rle(ab["v4w"])}, {fams}, [' + ';\n '.join(ms) + '], '
+    return (f'({case["M"]}, {len(res["full"])}, {len(res["min"])}, {rle(ab["v4a"])}, {rle(ab["v4w"])}, {fams}, [' + ';\n '.join(ms) + '], '
             f'{"true" if res["exc"] is not None and res["exc"][0] == "RuntimeError" else "false"}, '
-            f'{rle([len(m) for m in res["msgs"]])})')
+            f'{rle([len(m) - (0 if st["attr"] else len(st["rest"])) for m, st in zip(res["msgs"], structs)])})')
 
 
 def evaluate(cases, abs_, ress, structs, tag):
@@ -683,6 +699,50 @@ def gen_fill(rng, M, key):
     return {'sess': key, 'M': M, 'attr': attr, 'ann': ann, 'wd': wd, 'kind': 'fill:' + shape}
 
 
+def gen_mixes(rng):
+    """Every family/action mix, in every run: each non-empty subset of {IPv4 announce, IPv4 withdraw, MP announce,
+    MP withdraw} x {small, large route counts} x MP variants (1-2 families, 1-2 next hops; unicast-only and
+    with a non-unicast family), under two sessions and two attribute sizes."""
+    cases = []
+    parts = ['v4a', 'v4w', 'mpa', 'mpw']
+    for mask in range(1, 16):
+        subset = [p for i, p in enumerate(parts) if mask >> i & 1]
+        for size in ('small', 'large'):
+            for variant in range(3):
+                key = ['v4v6', 'all', 'all+ap'][variant]
+                mp_fams = [['ipv6 unicast'], ['ipv6 unicast', 'ipv4 mpls-vpn'], ['ipv6 multicast', 'ipv6 unicast']][variant]
+                nnh = [1, 2, 2][variant]
+                if key == 'v4v6':
+                    mp_fams = ['ipv6 unicast']
+                px = Prefixes()
+                ann, wd = [], []
+                n4 = rng.randint(1, 3) if size == 'small' else rng.randint(850, 1100)
+                nmp = rng.randint(1, 3) if size == 'small' else rng.randint(300, 500)
+                if 'v4a' in subset:
+                    ann += [route(px, 'ipv4 unicast', rng.randint(2, 5), rng, nh=NH4) for _ in range(n4)]
+                if 'v4w' in subset:
+                    wd += [route(px, 'ipv4 unicast', rng.randint(2, 5), rng, nh=NH4) for _ in range(n4)]
+                for part, dest in (('mpa', ann), ('mpw', wd)):
+                    if part not in subset:
+                        continue
+                    # the withdraw side of the third variant stays unicast/multicast: the no-attributes shortcut
+                    fams_here = mp_fams if not (part == 'mpw' and variant == 1 and rng.random() < 0.5) else ['ipv6 unicast']
+                    for k in range(nmp):
+                        fam = fams_here[k % len(fams_here)]
+                        v6 = fam.startswith('ipv6')
+                        nhs = (NH6 if v6 else NH4S)[:nnh]
+                        dest.append(route(px, fam, rng.randint(3, 17), rng, nh=nhs[k % len(nhs)]))
+                ann = [d for d in ann if d]
+                wd = [d for d in wd if d]
+                if not ann and not wd:
+                    continue
+                rng.shuffle(ann)
+                attr = ['glen', rng.choice([-1, 10, 300])] if size == 'large' or rng.random() < 0.5 else ['room', rng.randint(60, 200)]
+                cases.append({'sess': key, 'M': 4096, 'attr': attr, 'ann': ann, 'wd': wd,
+                              'kind': f'mix:{"+".join(subset)}:{size}'})
+    return cases
+
+
 def r4(ip, mask, nh=NH4, fam='ipv4 unicast'):
     return {'f': fam, 'ip': ip, 'mask': mask, 'nh': nh}
 
@@ -771,7 +831,7 @@ def process(run, cases, tag):
         abs_.append(abstract(c))
         sess = session(c['sess'], c['M'])
         ap = lambda f, neg=sess.neg: neg.addpath.send(AFI(f[0]), SAFI(f[1]))  # noqa: E731
-        st = [read_wire(m, res['attr'], ap) for m in res['msgs']]
+        st = [read_wire(m, res['full'], res['min'], ap) for m in res['msgs']]
         structs.append(None if any(s is None for s in st) else st)
         f, meta = oracle(c, res)
         judgements.append(f)
@@ -790,7 +850,9 @@ def check(tier, seed):
         'Coq 8.16.1 kernel (coqc), vm_compute for case evaluation and for the pinned-code witnesses; no native_compute',
         'harness/c09.py: generators, the abstraction map (real sorted()/family filter/IPv4-MP classification replicated, '
         'real pack_nlri and _encode_nexthop lengths, attribute length observed by wrapping pack_attribute), its own '
-        'UPDATE reader used to recover the per-field NLRI sizes, the property oracle (Message.unpack of every message)',
+        'UPDATE reader used to recover the per-field NLRI sizes and the non-MP attribute bytes, the property oracle '
+        '(Message.unpack of every message; attribute block of every announcing message = pack_attribute(negotiated, True) '
+        'of the requested attributes, called by the harness outside messages())',
         'modelled, not verified: UpdateCollection.messages packing loops, packed_reach/unreach_attributes '
         '(hand model Model_Split, both versions: with the D12 patch = split, pinned = split_pinned)',
     ]
@@ -816,6 +878,10 @@ def check(tier, seed):
             pass
     keys = list(SESSIONS)
     rooms = list(range(0, 65))
+    cases += gen_mixes(rng)
+    if not quick:
+        for _ in range(6):
+            cases += gen_mixes(rng)
     cases += gen_boundary(rng, 4096, rooms, keys, 5 if quick else 60)
     cases += gen_boundary(rng, 65535, rooms if not quick else rooms[::4], keys, 1 if quick else 8)
     n_fill = 220 if quick else 6000
@@ -845,7 +911,7 @@ def check(tier, seed):
                    f'{len(out["bad_size"])} cases')
     failing = [i for i, f in enumerate(out['judgements']) if f]
     run.obligation(
-        f'property oracle: size <= msg_size, parses alone, announced/withdrawn = requested, no exception, on {len(cases)} cases',
+        f'property oracle: size <= msg_size, parses alone, announced/withdrawn = requested, requested attributes on every announcing message, no exception, on {len(cases)} cases',
         not failing, f'{len(failing)} failing inputs')
     run.notes.append(f'cases that agree with the patched model: {len(cases) - len(bp)}; with the pinned model: '
                      f'{len(cases) - len(out["bad_pinned"])}')
@@ -871,7 +937,8 @@ def check(tier, seed):
     run.coverage.update({
         'evaluations': len(cases),
         'distinct_nontrivial': len(nontrivial),
-        'rule': 'D12 witnesses + replays; boundary collections (1-4 NLRIs sized around what a room of 0..64 bytes admits, per path: '
+        'rule': 'D12 witnesses + replays; every family/action mix (15 non-empty subsets of {IPv4 announce, IPv4 withdraw, MP announce, '
+                'MP withdraw} x small/large x 3 MP variants) in every run; boundary collections (1-4 NLRIs sized around what a room of 0..64 bytes admits, per path: '
                 'IPv4 announce/withdraw, MP_REACH, MP_UNREACH, both, mixed with IPv4; 5 sessions incl. ADD-PATH; both maxima); '
                 'fill collections (enough routes for 1-3 messages, attributes 0..300 bytes or room 65..400, several next hops, '
                 'IPv4/MP/mixed/withdraw shapes, non-negotiated family). '
